@@ -236,7 +236,7 @@ def update_connectivity(
 
     dtype = connectivity.encoding.get('dtype', connectivity.dtype)
 
-    if dtype.kind == 'i':
+    if dtype.kind in 'iu':
         # Ensure the fill value fits within the representable integers
         max_representable = numpy.iinfo(dtype).max
         if max_representable < fill_value:
